@@ -427,7 +427,7 @@ fn check(c: &Case, obs: &mut Obs) -> Verdict {
 
 // --- scenario enumeration ----------------------------------------------------------------------
 
-const TEXTS: &[&str] = &["", "a", "a\n", "a\nb", "a\r\nb\n", "\n\n", "a\nb\nc"];
+const TEXTS: &[&str] = &["", "a", "a\n", "a\nb", "a\r\nb\n", "\n\n", "a\nb\nc", "a\r"];
 
 fn calls_for(text: &str) -> Vec<Call> {
     let n = ref_lines(text).len() as u32;
@@ -620,7 +620,7 @@ fn subs() -> Vec<Sub> {
 
 pub const DEF: PropertyDef = PropertyDef {
     id: "C16",
-    rule: "exhaustive_interleavings: scenario = text (7 texts of 1..3 lines) x per-thread call lists from {get_line(0), get_line(last), \
+    rule: "exhaustive_interleavings: scenario = text (8 texts of 1..3 lines) x per-thread call lists from {get_line(0), get_line(last), \
            get_line(count), get_line(u32::MAX), line_count, lines}; each case explores EVERY interleaving of its threads' steps by stateless \
            DFS (inner evaluations = executions). random_schedules: proptest (scenario of 2..4 threads x 1..3 calls, schedule of <= 40 \
            choices). stress: free-running real threads (2..14) released by a barrier, hook not parking. Oracle: every call returns what a \
